@@ -588,6 +588,26 @@ bool Importer::ImporterImpl::fetchComponent(const ComponentPtr &importComponent,
     }
 
     history.pop_back();
+
+    // The components that this model encapsulates below the import element are part of this model, not of the
+    // imported one: fetch what they import and the units they use as well. (For the model that is being resolved
+    // every import element and all imported units are fetched, and reported, in their own right.)
+    const bool libraryModel = modelUrl(importComponentModel) != ORIGIN_MODEL_REF;
+    for (size_t c = 0; libraryModel && (c < importComponent->componentCount()); ++c) {
+        auto child = importComponent->component(c);
+        if (!fetchComponent(child, baseFile, history)) {
+            return false;
+        }
+        if (!child->isImport() && (importComponentModel != nullptr)) {
+            for (const auto &unitName : unitsNamesUsedInHierarchy(child)) {
+                auto units = importComponentModel->units(unitName);
+                if ((units != nullptr) && !fetchUnits(units, baseFile, history)) {
+                    return false;
+                }
+            }
+        }
+    }
+
     return true;
 }
 
